@@ -161,7 +161,9 @@ def run(rep, ctx):
                 n_nontrivial.add(progs[i0]['src'])
                 moved_findings += len(a)
             lines_want = sorted(set(line_of(b1, s) for s in want))
-            if r1['lines'][n] != 'PANIC' and r1['lines'][n] != lines_want:
+            if r1['lines'][n] == 'PANIC':
+                S.append((i0, i1, st, 'analyze_for_* with %s aborts on the re-laid-out text although the detector accepts its tree' % n, n))
+            elif r1['lines'][n] != lines_want:
                 S.append((i0, i1, st, '%s reports lines %s after the re-layout; the flagged tokens are on lines %s' % (n, r1['lines'][n], lines_want), n))
     # the same at the level of a run over a directory: the lines analyze_dir records for a re-laid-out file are the lines of
     # the moved tokens too (they have just been compared with the lines analyze_for_* reports for that text)
